@@ -3,14 +3,11 @@
 package main
 
 import (
-	"bytes"
 	"context"
 	"database/sql"
 	"encoding/json"
 	"errors"
 	"fmt"
-	"io"
-	"log/slog"
 	"os"
 	"sort"
 	"strconv"
@@ -26,6 +23,7 @@ import (
 	sqlMetadataStore "github.com/jdillenkofer/pithos/internal/storage/metadatapart/metadatastore/sql"
 	sqlPartStore "github.com/jdillenkofer/pithos/internal/storage/metadatapart/partstore/sql"
 	"github.com/jdillenkofer/pithos/internal/storage/notification"
+	"github.com/oklog/ulid/v2"
 )
 
 // C22 — event notifications. Case lines (see coq/Model/Notify.v):
@@ -122,8 +120,30 @@ func (p *c22Pub) Validate(ctx context.Context, arn string, d notification.Destin
 
 type c22Repo struct {
 	notification.Repository
-	failAt int // 1-based index of the Save call (within the current operation) that fails; 0 = none
-	saves  int
+	failAt    int // 1-based index of the Save call (within the current operation) that fails; 0 = none
+	saves     int
+	failWrite bool // the next delete / release / dead-letter write of the dispatcher fails (= the process dies before it)
+}
+
+var c22ErrWrite = errors.New("injected dispatcher write failure")
+
+func (r *c22Repo) DeleteByClaimOwner(ctx context.Context, tx *sql.Tx, outboxID string, id ulid.ULID, owner string) (bool, error) {
+	if r.failWrite {
+		return false, c22ErrWrite
+	}
+	return r.Repository.DeleteByClaimOwner(ctx, tx, outboxID, id, owner)
+}
+func (r *c22Repo) ReleaseClaim(ctx context.Context, tx *sql.Tx, outboxID string, id ulid.ULID, owner string, next time.Time, now time.Time, lastError string) (bool, error) {
+	if r.failWrite {
+		return false, c22ErrWrite
+	}
+	return r.Repository.ReleaseClaim(ctx, tx, outboxID, id, owner, next, now, lastError)
+}
+func (r *c22Repo) DeadLetter(ctx context.Context, tx *sql.Tx, outboxID string, id ulid.ULID, owner string, now time.Time, lastError string) (bool, error) {
+	if r.failWrite {
+		return false, c22ErrWrite
+	}
+	return r.Repository.DeadLetter(ctx, tx, outboxID, id, owner, now, lastError)
 }
 
 func (r *c22Repo) Save(ctx context.Context, tx *sql.Tx, outboxID string, e *notification.OutboxEntry) error {
@@ -139,12 +159,14 @@ type c22Row struct {
 	attempts             int
 	next                 time.Time
 	dead                 bool
+	claimOwner           string // "" = unclaimed
+	claimExpired         bool
 }
 
 func c22Rows(db database.Database) []c22Row {
 	var rows []c22Row
 	err := database.WithTx(context.Background(), db, &sql.TxOptions{ReadOnly: true}, func(ctx context.Context, tx database.Tx) error {
-		rs, err := tx.SqlTx().QueryContext(ctx, "SELECT id, destination_arn, event_name, payload, attempts, next_attempt_at, dead_lettered_at FROM notification_outbox_entries ORDER BY id")
+		rs, err := tx.SqlTx().QueryContext(ctx, "SELECT id, destination_arn, event_name, payload, attempts, next_attempt_at, dead_lettered_at, claim_owner, claim_until FROM notification_outbox_entries ORDER BY id")
 		if err != nil {
 			return err
 		}
@@ -152,9 +174,14 @@ func c22Rows(db database.Database) []c22Row {
 		for rs.Next() {
 			var r c22Row
 			var payload []byte
-			var dead sql.NullTime
-			if err := rs.Scan(&r.id, &r.dest, &r.event, &payload, &r.attempts, &r.next, &dead); err != nil {
+			var dead, until sql.NullTime
+			var owner sql.NullString
+			if err := rs.Scan(&r.id, &r.dest, &r.event, &payload, &r.attempts, &r.next, &dead, &owner, &until); err != nil {
 				return err
+			}
+			if owner.Valid {
+				r.claimOwner = owner.String
+				r.claimExpired = until.Valid && !until.Time.After(time.Now().UTC())
 			}
 			r.dest = c22DestLetter(r.dest)
 			r.key = c22KeyOf(payload)
@@ -375,265 +402,3 @@ func c22OpenDB(scratch string) database.Database {
 	return db
 }
 
-func c22RunHistory(f []string, scratch string) Result {
-	ctx := context.Background()
-	maxAtt, _ := strconv.Atoi(f[1])
-	minMs, _ := strconv.Atoi(f[2])
-	maxMs, _ := strconv.Atoi(f[3])
-	pub := &c22Pub{masks: map[byte]uint64{}}
-	for _, m := range strings.Split(f[4], ",") {
-		v, _ := strconv.ParseUint(m[1:], 10, 64)
-		pub.masks[m[0]] = v
-	}
-	c22Quiet.Do(func() { slog.SetDefault(slog.New(slog.NewTextHandler(io.Discard, nil))) })
-	db := c22OpenDB(scratch)
-	defer db.Close()
-	inner := c22Storage(db)
-	repo := &c22Repo{Repository: notification.NewSQLRepository()}
-	cfg := notification.DispatcherConfig{MaxAttempts: maxAtt, MinBackoff: time.Duration(minMs) * time.Millisecond, MaxBackoff: time.Duration(maxMs) * time.Millisecond}
-	mw, err := notification.NewStorageMiddleware(inner, db, repo, pub, "default", time.Minute, cfg, nil)
-	if err != nil {
-		panic("harness: " + err.Error())
-	}
-	mdb := notification.VerifDB(mw)
-
-	// oracle state: what must be in the outbox = rows of committed mutations that match a rule (own bookkeeping)
-	type bucketCfg struct {
-		rules []storage.NotificationConfigurationRule
-		eb    bool
-	}
-	cfgs := map[string]*bucketCfg{}
-	effMin, effMax := cfg.MinBackoff, cfg.MaxBackoff
-	if effMin <= 0 {
-		effMin = time.Second
-	}
-	if effMax <= 0 {
-		effMax = 300 * time.Second
-	}
-	if effMax < effMin {
-		effMax = effMin
-	}
-	fail := ""
-	setFail := func(s string) {
-		if fail == "" {
-			fail = s
-		}
-	}
-	published := map[string]bool{} // entry id -> acknowledged
-	failedAttempts := map[string]int{}
-
-	var outs []string
-	nMut, nCommitted, nRolled, nEntries, nPub := 0, 0, 0, 0, 0
-	for _, o := range strings.Split(f[5], ";") {
-		g := strings.Split(o, ":")
-		switch g[0] {
-		case "K":
-			if err := mw.CreateBucket(ctx, storage.MustNewBucketName(g[1])); err != nil {
-				outs = append(outs, "err")
-			} else {
-				cfgs[g[1]] = &bucketCfg{}
-				outs = append(outs, "ok")
-			}
-		case "V":
-			st := storage.BucketVersioningStatusEnabled
-			if err := mw.PutBucketVersioningConfiguration(ctx, storage.MustNewBucketName(g[1]), &storage.BucketVersioningConfiguration{Status: &st}); err != nil {
-				outs = append(outs, "err")
-			} else {
-				outs = append(outs, "ok")
-			}
-		case "N":
-			rules := c22ParseRules(g[3])
-			conf := &storage.BucketNotificationConfiguration{QueueConfigurations: rules, EventBridgeEnabled: g[2] == "1"}
-			if err := mw.PutBucketNotificationConfiguration(ctx, storage.MustNewBucketName(g[1]), conf); err != nil {
-				outs = append(outs, "err")
-			} else {
-				cfgs[g[1]] = &bucketCfg{rules: rules, eb: g[2] == "1"}
-				outs = append(outs, "ok")
-			}
-		case "P", "M", "D", "T", "U", "C":
-			nMut++
-			before := c22Rows(mdb)
-			j, _ := strconv.Atoi(g[len(g)-1])
-			repo.failAt, repo.saves = j, 0
-			b, k := storage.MustNewBucketName(g[1]), storage.MustNewObjectKey(g[2])
-			tb, tk := g[1], g[2]
-			var err error
-			var event string
-			switch g[0] {
-			case "P":
-				_, err = mw.PutObject(ctx, b, k, nil, bytes.NewReader([]byte("data-"+g[2])), nil, nil)
-				event = notification.EventObjectCreatedPut
-			case "M":
-				var up *storage.InitiateMultipartUploadResult
-				up, err = mw.CreateMultipartUpload(ctx, b, k, nil, nil, nil)
-				if err == nil {
-					_, err = mw.UploadPart(ctx, b, k, up.UploadId, 1, bytes.NewReader([]byte("part-"+g[2])), nil)
-				}
-				if err == nil {
-					repo.saves = 0
-					_, err = mw.CompleteMultipartUpload(ctx, b, k, up.UploadId, nil, nil)
-				}
-				event = notification.EventObjectCreatedCompleteMultipartUpload
-			case "D":
-				var res *storage.DeleteObjectResult
-				res, err = mw.DeleteObject(ctx, b, k, nil)
-				event = notification.EventObjectRemovedDelete
-				if err == nil && res != nil && res.IsDeleteMarker {
-					event = notification.EventObjectRemovedDeleteMarkerCreated
-				}
-			case "T":
-				err = mw.PutObjectTagging(ctx, b, k, map[string]string{"a": "b"}, nil)
-				event = notification.EventObjectTaggingPut
-			case "U":
-				err = mw.DeleteObjectTagging(ctx, b, k, nil)
-				event = notification.EventObjectTaggingDelete
-			case "C":
-				tb, tk = g[3], g[4]
-				_, err = mw.CopyObject(ctx, b, k, storage.MustNewBucketName(g[3]), storage.MustNewObjectKey(g[4]), nil)
-				event = notification.EventObjectCreatedCopy
-			}
-			repo.failAt = 0
-			after := c22Rows(mdb)
-			seen := map[string]bool{}
-			for _, r := range before {
-				seen[r.id] = true
-			}
-			var added []string
-			for _, r := range after {
-				if !seen[r.id] {
-					added = append(added, r.dest+"|"+c22Short(r.event)+"|"+r.key)
-				}
-			}
-			if len(after)-len(added) != len(before) {
-				setFail("outbox rows disappeared during a mutation")
-			}
-			// oracle: rows <=> the mutation committed and a rule of the target bucket matches
-			var want []string
-			if err == nil {
-				nCommitted++
-				if c := cfgs[tb]; c != nil {
-					for _, r := range c.rules {
-						if c22SpecMatches(r, event, tk) {
-							want = append(want, c22DestLetter(r.DestinationARN)+"|"+c22Short(event)+"|"+tk)
-						}
-					}
-					if c.eb {
-						want = append(want, "eventbridge:"+tb+"|"+c22Short(event)+"|"+tk)
-					}
-				}
-			} else {
-				nRolled++
-			}
-			nEntries += len(added)
-			if c22List(want) != c22List(added) {
-				setFail(fmt.Sprintf("op %s (error=%v): outbox rows added %s, committed mutation x matching rules say %s", o, err != nil, c22List(added), c22List(want)))
-			}
-			present := "-"
-			if _, herr := mw.HeadObject(ctx, storage.MustNewBucketName(tb), storage.MustNewObjectKey(tk), nil); herr == nil {
-				present = "+"
-			}
-			res := "ok"
-			if err != nil {
-				res = "err"
-			}
-			outs = append(outs, res+c22List(added)+present)
-		case "A":
-			err := database.WithTx(ctx, mdb, &sql.TxOptions{ReadOnly: false}, func(ctx context.Context, tx database.Tx) error {
-				_, err := tx.SqlTx().ExecContext(ctx, "UPDATE notification_outbox_entries SET next_attempt_at = $1 WHERE dead_lettered_at IS NULL", time.Now().UTC().Add(-time.Hour))
-				return err
-			})
-			if err != nil {
-				panic("harness: ageing rows: " + err.Error())
-			}
-			outs = append(outs, "ok")
-		case "X":
-			pub.calls = nil
-			notification.VerifDispatchAvailable(ctx, mw)
-			rows := c22Rows(mdb)
-			byID := map[string]c22Row{}
-			for _, r := range rows {
-				byID[r.id] = r
-			}
-			var pubs, rs []string
-			last := map[string]c22Call{}
-			for _, c := range pub.calls {
-				nPub++
-				okf := "f"
-				if c.ok {
-					okf = "s"
-				}
-				pubs = append(pubs, fmt.Sprintf("%s|%s|%s|%d|%s", c.dest, c22Short(c.event), c.key, c.attempt, okf))
-				last[c.id] = c
-				// oracle: never published again after an acknowledged publish; never beyond MaxAttempts
-				if published[c.id] {
-					setFail("entry " + c.id + " published again after a successful publish")
-				}
-				if c.ok {
-					published[c.id] = true
-					if _, still := byID[c.id]; still {
-						setFail("entry still in the outbox after a successful publish")
-					}
-				} else {
-					failedAttempts[c.id]++
-					r, still := byID[c.id]
-					switch {
-					case !still:
-						setFail("entry lost after a failed publish (neither retried nor dead-lettered)")
-					case maxAtt > 0 && c.attempt >= maxAtt && !r.dead:
-						setFail(fmt.Sprintf("entry not dead-lettered after %d failed attempts (MaxAttempts %d)", c.attempt, maxAtt))
-					case (maxAtt <= 0 || c.attempt < maxAtt) && r.dead:
-						setFail(fmt.Sprintf("entry dead-lettered after only %d attempts (MaxAttempts %d)", c.attempt, maxAtt))
-					}
-				}
-				if maxAtt > 0 && c.attempt > maxAtt {
-					setFail("publish attempt beyond MaxAttempts")
-				}
-			}
-			for _, r := range rows {
-				s := fmt.Sprintf("%s|%s|%s|%d|", r.dest, c22Short(r.event), r.key, r.attempts)
-				if r.dead {
-					s += "D"
-				} else {
-					s += "P"
-					if c, ok := last[r.id]; ok && !c.ok {
-						d := r.next.Sub(c.returned)
-						// the release happens right after Publish returned: delay <= d < delay + scheduling noise
-						dm := d / (100 * time.Millisecond) * (100 * time.Millisecond)
-						s += "|" + strconv.FormatInt(int64(dm/time.Millisecond), 10)
-						if d < effMin || dm > effMax {
-							setFail(fmt.Sprintf("retry scheduled %v after the failed attempt, outside [%v, %v]", d, effMin, effMax))
-						}
-					}
-				}
-				rs = append(rs, s)
-			}
-			outs = append(outs, "pub"+c22List(pubs)+"rows"+c22List(rs))
-		default:
-			panic("harness: bad op " + o)
-		}
-	}
-	oracle := "OK"
-	if fail != "" {
-		oracle = "FAIL:" + fail
-	}
-	tags := []string{"history"}
-	if nCommitted > 0 && nEntries > 0 {
-		tags = append(tags, "hist-entries")
-	}
-	if nRolled > 0 {
-		tags = append(tags, "hist-rollback")
-	}
-	if nPub > 0 {
-		tags = append(tags, "hist-dispatch")
-	}
-	for _, n := range failedAttempts {
-		if maxAtt > 0 && n >= maxAtt {
-			tags = append(tags, "hist-deadletter")
-			break
-		}
-	}
-	if nMut == 0 {
-		tags = append(tags, "hist-nomutation")
-	}
-	return Result{Out: strings.Join(outs, ";"), Oracle: oracle, Tags: tags}
-}
